@@ -56,6 +56,9 @@ fn ctr_opd(r: &str) -> (Opd, ImmKind) {
         "bp" => (Opd::R16(R16::BP), ImmKind::SW),
         "bl" => (Opd::R8(R8::BL), ImmKind::SB),
         "bh" => (Opd::R8(R8::BH), ImmKind::SB),
+        // loop counters that live in memory (main part only): nothing but that byte changes from pass to pass
+        "m0" => (Opd::Mem(W::B, Mem { seg: None, shape: Shape::Direct(0x7F00) }), ImmKind::SB),
+        "m1" => (Opd::Mem(W::B, Mem { seg: None, shape: Shape::Direct(0x7F02) }), ImmKind::SB),
         _ => (Opd::R8(R8::DH), ImmKind::SB),
     }
 }
@@ -109,7 +112,9 @@ fn build_body(toks: &[Tok], b: &mut Builder, nprocs_callable: usize, top_level: 
             3 => {
                 if (open.len() as u8) < max_depth && loops_open < counters.len() {
                     let n = 1 + (t.a % 3) as u16;
-                    let ctr = counters[loops_open];
+                    let in_memory = top_level && !in_proc && t.b % 4 == 1;
+                    let ctr = if in_memory { ["m0", "m1", "m1", "m1", "m1"][loops_open] } else { counters[loops_open] };
+                    let n = if in_memory { n + 2 } else { n };
                     let (opd, k) = ctr_opd(ctr);
                     out.push(Item::Ins(Insn::new("mov", vec![opd, Opd::Imm(n, k)])));
                     let l = b.fresh();
